@@ -19,7 +19,7 @@ LEVEL = "fault_enumeration"
 RULE = ("E1 x fault sequences: accounts (built-in per region, custom with '+@_'), device ids in both byte orders, token lists with "
         "the matching entry absent / first / middle / last / among near misses (one hex digit off, other letter case, prefix); per "
         "request (login-id, login, getToken) every answer sequence over {ok, timeout, HTTP 500/404/302, API error, connection dropped, undecodable body} up to the retry budget "
-        "(14 patterns each, 2744 flows). The real NetHomePlusCloud runs over httpx.MockTransport against a reference server that "
+        "(quick tier: 14 patterns each, 2744 flows; thorough tier: all 22 sequences of k <= 2 timeouts followed by each of the 7 terminal answers, or three timeouts, per request: 10648 flows). The real NetHomePlusCloud runs over httpx.MockTransport against a reference server that "
         "verifies signature, constant fields, time stamp, login-id/password derivation and session id of EVERY request. Oracle: no "
         "request rejected by the server; attempts per request as the retry contract says; (token,key) of the exact match only; "
         "failures are CloudError. Discover.discover(auto_connect=True) against a simulated V3 device whose credentials are "
@@ -30,18 +30,27 @@ ASSUMPTIONS = ["the reference server encodes the NetHome Plus contract as implem
 PATTERNS = [("ok",), ("timeout", "ok"), ("timeout", "timeout", "ok"), ("timeout", "timeout", "timeout"),
             ("500",), ("timeout", "500"), ("timeout", "timeout", "500"), ("api",), ("timeout", "api"), ("timeout", "timeout", "api"),
             ("302",), ("timeout", "404"), ("proto",), ("timeout", "decode")]
+TERMINALS = ["ok", "500", "404", "302", "api", "proto", "decode"]
+# thorough tier: EVERY answer sequence up to a budget of 3 (k timeouts followed by each terminal answer, and three timeouts)
+PATTERNS_T = [("timeout",) * k + (t,) for k in range(3) for t in TERMINALS] + [("timeout",) * 3]
 EPS = ["/v1/user/login/id/get", "/v1/user/login", "/v1/iot/secure/getToken"]
 ACCOUNTS = [("US", None, None), ("DE", None, None), ("KR", None, None), ("US", "user+tag@example_mail.com", "pa55_word+@"),
             ("DE", "a@b.c", "x"), ("US", "first last&co=1%@example.com", "pass word"), ("KR", "x@y.z", " correct horse battery ")]
 
 
+def patterns(tier):
+    return PATTERNS_T if tier == "thorough" else PATTERNS
+
+
 def bounds(tier):
-    return {"answer_patterns_per_request": len(PATTERNS), "flows": len(PATTERNS) ** 3, "accounts": len(ACCOUNTS),
+    return {"answer_patterns_per_request": len(patterns(tier)), "flows": len(patterns(tier)) ** 3,
+            "answer_alphabet": ["timeout"] + TERMINALS if tier == "thorough" else "14 listed patterns", "accounts": len(ACCOUNTS),
             "token_list_shapes": 9, "device_ids": 6, "byte_orders": 2}
 
 
 def shards(tier):
-    out = [("flows", i, 12) for i in range(12)]
+    n = 64 if tier == "thorough" else 12
+    out = [("flows", i, n) for i in range(n)]
     out += [("lists", a, 0) for a in range(len(ACCOUNTS))]
     out += [("discover", i, 0) for i in range(4)]
     out += [("discover2", i, 0) for i in range(len(PATTERNS))]
@@ -144,7 +153,7 @@ def run_shard(shard, tier) -> Stats:
         udpid = udpid_hex(dev_id, "little")
         tokens = token_lists(udpid)[4][1]
         idx = 0
-        for p0, p1, p2 in product(PATTERNS, repeat=3):
+        for p0, p1, p2 in product(patterns(tier), repeat=3):
             idx += 1
             if idx % b != a:
                 continue
